@@ -1182,6 +1182,14 @@ impl Exec {
         if self.db.is_none() {
             return;
         }
+        let kind = kind % 9;
+        if kind == 8 {
+            // the backend's own close() reports an error: still exactly one close, nothing after it
+            self.disk.st().fail_close = true;
+            let cache = self.cache;
+            self.reopen(cache);
+            return;
+        }
         // a file that needs repair for kinds 3 and 5: power loss with everything written kept
         let image = if kind == 3 || kind == 5 {
             self.crash_now(&CrashChoice::AllKept)
@@ -1190,7 +1198,7 @@ impl Exec {
             self.disk.st().live.clone()
         };
         let mut img = image.clone();
-        match kind % 6 {
+        match kind {
             0 => {
                 if img.len() > 4 {
                     img[(arg % 9) as usize] ^= 0x5a;
@@ -1200,18 +1208,23 @@ impl Exec {
                 let keep = (arg as usize) % img.len().max(1);
                 img.truncate(keep);
             }
+            6 | 7 => {
+                // extended externally by whole pages (still a valid layout)
+                let extra = (1 + arg % 4) as usize * self.cfg.page_size as usize;
+                img.resize(img.len() + extra, 0);
+            }
             _ => {}
         }
         let d = SimDisk::new(img);
         d.st().record = false;
-        if kind % 6 == 4 {
+        if kind == 4 {
             d.arm(vec![crate::disk::Fault { index: arg % 40, permanent: arg % 2 == 0, partial_permille: 0 }]);
         }
         self.stats.api_calls += 1;
         let cache = self.cache;
         let r = catch_unwind(AssertUnwindSafe(|| -> Result<(), String> {
             let mut b = self.builder(cache);
-            match kind % 6 {
+            match kind {
                 2 => {
                     let other = if self.cfg.page_size == 4096 { 8192 } else { 4096 };
                     b.verif_set_page_size(other);
@@ -1221,7 +1234,7 @@ impl Exec {
                     b.set_repair_callback(|s| s.abort());
                     b.create_with_backend(d.clone()).map(drop).map_err(|e| e.to_string())
                 }
-                5 => {
+                5 | 6 => {
                     d.st().read_only = true;
                     b.verif_open_read_only_with_backend(d.clone()).map(drop).map_err(|e| e.to_string())
                 }
@@ -1230,7 +1243,7 @@ impl Exec {
         }));
         let opened_ok = matches!(r, Ok(Ok(())));
         if r.is_err() {
-            self.viol("C20", "open-panic", format!("a failing open (kind {kind}) panicked: {}", crate::runner::last_panic()));
+            self.viol("C20", "open-panic", format!("an open (kind {kind}: {}) panicked: {}", ["bad magic", "truncated", "wrong page size", "repair aborted", "I/O fault", "read-only, needs repair", "read-only, file extended", "file extended", ""][kind as usize], crate::runner::last_panic()));
         }
         {
             let s = d.st();
